@@ -102,9 +102,52 @@ def extra_out_dumpers():
                 report("fresh-result", "the dump result is " + ("the mapping stored in the object" if out1 is obj.extra else "shared between two calls"))
             if repr(obj) != snap:
                 report("modifies-nothing", f"the object changed to {obj!r}")
+    # several extra targets: the generated dumper merges the dumped mappings of all targets (`extra_stack`); a target dumped as is
+    # (Any) is the mapping stored in the object itself, so the merge must never be done in place
+    @dataclass
+    class M2:
+        a: int = 1
+        b: str = "x"
+        x1: Any = field(default_factory=dict)
+        x2: Dict[str, int] = field(default_factory=dict)
+        x3: Any = field(default_factory=dict)
+    n2 = 0
+    for targets, omit, dt in itertools.product((["x1", "x2"], ["x2", "x1"], ["x1", "x3"], ["x1", "x2", "x3"]), (False, True), DebugTrail):
+        skip = [f_ for f_ in ("x1", "x2", "x3") if f_ not in targets]
+        dumper = Retort(recipe=[name_mapping(M2, extra_out=targets, omit_default=omit, skip=skip)], debug_trail=dt).get_dumper(M2)
+        for a, e1, e2 in itertools.product((1, 2), ({}, {"k": 1}), ({}, {"m": 2})):
+            n2 += 1
+            extras = {"x1": dict(e1), "x2": dict(e2), "x3": {"z": 3}}
+            obj = M2(a, "x", extras["x1"], extras["x2"], extras["x3"])
+            snap = repr(obj)
+            label = f"targets={'+'.join(targets)}; omit={omit}; {dt.name}; a={a} x1={e1!r} x2={e2!r}"
+
+            def report2(clause, detail):
+                viol.append({"unit": "model dumper with extra_out", "clause": clause, "witness": label,
+                             "w": {"input": f"M2({a}, 'x', {e1!r}, {e2!r}, {{'z': 3}}) with extra_out={targets!r}"[:300], "native_outcome": detail[:300]}})
+            try:
+                out1, out2 = dumper(obj), dumper(obj)
+            except Exception as e:  # noqa: BLE001
+                report2("dumps", f"raised {type(e).__name__}: {e}")
+                continue
+            want = {}
+            for t_ in targets:
+                want.update(extras[t_] if t_ != "x3" else {"z": 3})
+            if not (omit and a == 1):
+                want["a"] = a
+            if not omit:
+                want["b"] = "x"
+            if out1 != want or out2 != want:
+                report2("extras-merged", f"dumps gave {out1!r} then {out2!r}, expected {want!r}")
+            if any(out1 is getattr(obj, t_) for t_ in ("x1", "x2", "x3")) or out1 is out2:
+                report2("fresh-result", "the dump result is a mapping stored in the object or shared between two calls")
+            if repr(obj) != snap:
+                report2("modifies-nothing", f"the object changed from {snap} to {obj!r}")
     return {"obligations": 0, "discharged": 0, "violations": viol, "solver_time": 0.0,
             "bounded": [{"unit": "model dumpers with extra_out (extractor / target field)",
-                         "bound": f"{n} dumps: 5 configurations x 3 debug-trail modes x 8 objects (every subset of omitted fields, empty / non-empty extras)"}],
+                         "bound": f"{n} dumps: 5 configurations x 3 debug-trail modes x 8 objects (every subset of omitted fields, empty / non-empty extras)"},
+                        {"unit": "model dumpers with several extra_out targets (as-is and typed mappings, both orders)",
+                         "bound": f"{n2} dumps: 4 target lists x omit_default on/off x 3 debug-trail modes x 8 objects"}],
             "samples": [{"extra_out_dumps": n, "failed": len(viol)}],
             "assumptions": ["extra_out dumpers are checked only on this bounded family"]}
 
